@@ -1,6 +1,7 @@
 """U1 — encoder side: tonic/src/codec/encode.rs.
 Carries C01 (framing, schedule independence), C03 (wire conformance, single trailers), C06 (send limit, no collateral loss),
 C02 (status hand-off into trailers)."""
+import re
 from vxlib import Unit, Clause, r20_let_intro
 from units import common
 
@@ -243,6 +244,37 @@ def build():
     u.item(E, 'struct', 'EncodeState')
     u.item(E, 'struct', 'EncodeBody', edits=[lambda t: t.sub_code('R12', r'EncodeBody<T, U>', 'EncodeBody<T, U: Stream>')])
     u.raw(BODY_SHIMS)
+    # ---- constructors: which role / compression / limit a body is built with ----
+    u.item('tonic/src/codec/compression.rs', 'enum', 'SingleMessageCompressionOverride', derives='Clone, Copy, PartialEq, Eq, Structural')
+    import vxlib as _vx
+    if not re.search(r'#\[default\]\s*Inherit\b', _vx.read_src('tonic/src/codec/compression.rs')):
+        # the shim below (A-derive-02) spells out derive(Default); if the source no longer says so the unit cannot decide
+        raise _vx.Infra('SingleMessageCompressionOverride: #[default] is no longer on Inherit (text guard of shim A-derive-02)')
+    u.raw('''// A-derive-02: #[derive(Default)] with #[default] on Inherit
+impl SingleMessageCompressionOverride { pub fn default() -> (r: Self) ensures r == SingleMessageCompressionOverride::Inherit { SingleMessageCompressionOverride::Inherit } }
+// A-stream-02: StreamExt::fuse wraps the stream; nothing has been yielded yet
+pub trait FuseExt: Stream + Sized {
+    fn fuse(self) -> (r: Fuse<Self>) ensures r.inner == self, r.log@ == Seq::<Self::Item>::empty(), !r.done@;
+}
+impl<U: Stream> FuseExt for U { #[verifier::external_body] fn fuse(self) -> (r: Fuse<Self>) { unimplemented!() } }
+pub open spec fn fresh_encoder<T, U: Stream>(e: EncodedBytes<T, U>, encoder: T, source: U, compression: Option<CompressionEncoding>, max: Option<usize>) -> bool {
+    e.encoder == encoder && e.source.inner == source && e.source.log@ == Seq::<U::Item>::empty() && !e.source.done@
+        && e.compression_encoding == compression && e.max_message_size == max && e.buf@ == Seq::<u8>::empty() && e.error is None
+}
+''')
+    CP = ['C02', 'C03', 'C05', 'C06']
+    u.fn(E, 'new', within='impl<T: Encoder, U: Stream> EncodedBytes<T, U>', header='impl<T: Encoder, U: Stream> EncodedBytes<T, U> {', close=True, props=CP,
+         ensures=[Clause('B0_fresh_encoder_with_the_given_settings_and_the_per_message_override_applied',
+                         'fresh_encoder(r, encoder, source, if compression_override == SingleMessageCompressionOverride::Disable { None } else { compression_encoding }, max_message_size)')])
+    u._emit('impl<T: Encoder, U: Stream> EncodeBody<T, U> {'); u._open_header = 'impl<T: Encoder, U: Stream> EncodeBody<T, U> {'
+    W = 'impl<T: Encoder, U: Stream> EncodeBody<T, U>'
+    u.fn(E, 'new_client', within=W, props=CP,
+         ensures=[Clause('B1_client_body_never_owes_trailers_and_uses_the_configured_compression_and_limit',
+                         'r.state.role is Client && r.state.error is None && !r.state.is_end_stream && fresh_encoder(r.inner, encoder, source, compression_encoding, max_message_size)')])
+    u.fn(E, 'new_server', within=W, props=CP,
+         ensures=[Clause('B2_server_body_owes_trailers',
+                         'r.state.role is Server && r.state.error is None && !r.state.is_end_stream && fresh_encoder(r.inner, encoder, source, if compression_override == SingleMessageCompressionOverride::Disable { None } else { compression_encoding }, max_message_size)')])
+    u.close('}')
 
     hint = ('proof { let x = source.p.log@.last(); assert(source.p.log@ =~= log_before.push(x)); '
             'assert(source.p.log@.skip(n0) =~= log_before.skip(n0).push(x)); lemma_wire_push::<T>(enc0, max0, log_before.skip(n0), x); '
